@@ -155,7 +155,7 @@ func (c19) Plan(tier string, seed int64) []mon.Workload {
 	return []mon.Workload{
 		{Name: "paramdefs", N: seqCount(len(c19Names)*len(c19Kinds), mp), Exhaustive: true},
 		{Name: "calls", N: int64(len(c19ValidLists(mp))) * seqCount(len(c19ArgNames), ma), Exhaustive: true},
-		{Name: "typed-getters", N: int64(len(c19Getters) * len(c19Lits) * 3), Exhaustive: true},
+		{Name: "typed-getters", N: int64(len(c19Getters) * len(c19Lits) * 5), Exhaustive: true},
 		{Name: "nested-calls", N: map[string]int64{"quick": 1500, "thorough": 100000}[tier]},
 	}
 }
@@ -163,7 +163,7 @@ func (c19) Plan(tier string, seed int64) []mon.Workload {
 // typed getters: GetParamInt/Float/Bool/String/List/Map must hand back the
 // argument bound to the parameter when it has the getter's type and report an
 // error otherwise - never a zero value in its place.
-var c19Getters = []string{"int", "float", "bool", "string", "list", "map"}
+var c19Getters = []string{"int", "float", "bool", "string", "list", "map", "any"}
 var c19Lits = []struct {
 	Text string
 	Type string
@@ -175,8 +175,8 @@ var c19Lits = []struct {
 }
 
 func (c19) typedGetter(c *mon.Ctx, i int64) {
-	how := int(i % 3) // positional, named, default
-	i /= 3
+	how := int(i % 5) // positional, named, default, optional given by position, optional given by name
+	i /= 5
 	lit := c19Lits[i%int64(len(c19Lits))]
 	getter := c19Getters[i/int64(len(c19Lits))]
 	params := []*runtimev2.Param{{Name: "a"}, {Name: "b", Val: func() any { return lit.Val }}}
@@ -190,6 +190,15 @@ func (c19) typedGetter(c *mon.Ctx, i int64) {
 	case 2:
 		src = "f(0)"
 		idx = 1 // read the defaulted parameter b
+	case 3, 4:
+		// an argument GIVEN for the optional parameter is what the function
+		// receives, whatever its value (nil included) - not the default
+		params[1].Val = func() any { return "the default, which was not asked for" }
+		src = "f(0, " + lit.Text + ")"
+		if how == 4 {
+			src = "f(0, b = " + lit.Text + ")"
+		}
+		idx = 1
 	}
 	fn := &runtimev2.Fn{
 		CallCheck: func(ctx *runtimev2.Task, e *ast.CallExpr) *errchain.PlError {
@@ -209,6 +218,8 @@ func (c19) typedGetter(c *mon.Ctx, i int64) {
 				got, gerr = runtimev2.GetParamList(ctx, e, params, idx)
 			case "map":
 				got, gerr = runtimev2.GetParamMap(ctx, e, params, idx)
+			case "any":
+				got, gerr = runtimev2.GetParam(ctx, e, params, idx)
 			}
 			return nil
 		},
@@ -226,11 +237,11 @@ func (c19) typedGetter(c *mon.Ctx, i int64) {
 		}
 	}()
 	c.Eval(1)
-	key := fmt.Sprintf("GetParam%s on %s via %s", getter, lit.Text, []string{"positional", "named", "default"}[how])
+	key := fmt.Sprintf("GetParam%s on %s via %s", getter, lit.Text, []string{"positional", "named", "default", "optional-positional", "optional-named"}[how])
 	c.Nontrivial(key)
 	c.Cell("getter_cells", getter+"/"+lit.Type)
 	cs := map[string]any{"getter": getter, "call": src}
-	match := getter == lit.Type
+	match := getter == lit.Type || getter == "any"
 	switch {
 	case pan != nil:
 		c.Violate("typed-getter-panic", fmt.Sprintf("%s: %v", key, pan), cs)
